@@ -5,8 +5,10 @@ Geometry of the footnote model: the footnote area, and lines of a paragraph agai
 `@footnote` style: since repair 8db5909 the area is never fragmented, so what `_update_footnote_area` subtracts is
 what it later adds back and the bookkeeping telescopes (before the repair it drifted when the area had a bottom
 decoration and footnotes of two page names: `corpus/C01/footnote_named_page_overlap.json`, now a regression case).
-`page_bottom ≤ page height` needs the decorations of the area to sum to ≥ 0 (`AreaHyp`): with a negative top margin
-an *emptied* area raises `page_bottom` above the page (witness `Witness/C01Foot.area_negative_margin_overflows`).
+An emptied area takes no room (repair 84e5b27: its height goes back to 'auto').  `page_bottom ≤ page height` still
+needs the decorations of the area to sum to ≥ 0 (`AreaHyp`): with a top margin more negative than the content is
+high, the margin box of a *non-empty* area has a negative height and `page_bottom` ends below the page box
+(witness `Witness/C01Foot.area_negative_margin_box_overflows`).
 -/
 import WpModel.Lemmas.FootSegment
 import WpModel.Lemmas.FootState
@@ -52,7 +54,7 @@ theorem clamp_nonneg (x : Rat) : 0 ≤ (if x ≥ 0 then x else 0) := by
 
 /-- The state `_update_footnote_area` computes once `page_bottom` has been raised back to `pb1`. -/
 def updateAreaFrom (c : FCtx) (fs : FState) (pb1 : Rat) : FState :=
-  if fs.cur.isEmpty then { fs with areaH := some 0, pageBottom := pb1 - c.area.marginHeight 0 }
+  if fs.cur.isEmpty then { fs with areaH := none, pageBottom := pb1 }
   else { fs with areaH := some (areaLayout c.area c.pageH fs.cur).h,
                  pageBottom := pb1 - (areaLayout c.area c.pageH fs.cur).marginHeight }
 
@@ -61,7 +63,7 @@ theorem updateAreaFrom_inv (c : FCtx) (fs : FState) (hcur : ∀ f ∈ fs.cur, 0 
     PbInv c (updateAreaFrom c fs c.pageH) := by
   unfold updateAreaFrom
   split
-  · exact ⟨hcur, Or.inr ⟨0, rfl, Rat.le_refl, rfl⟩, hrep⟩
+  · exact ⟨hcur, Or.inl ⟨rfl, rfl⟩, hrep⟩
   · refine ⟨hcur, Or.inr ⟨(areaLayout c.area c.pageH fs.cur).h, rfl, ?_, ?_⟩, hrep⟩
     · unfold areaLayout
       dsimp only
